@@ -18,6 +18,13 @@ let rec parse_prog (ws : string list) : instr list * string list =
     else if w = "R" then one IReset
     else if w = "C" then one IRecompile
     else if w = "ps" then one IPause
+    else if w = "Wm" then one IWaitMissing
+    else if String.length w >= 3 && String.sub w 0 2 = "gp" then one (IGPrint (n_of_int (int_of_string (String.sub w 2 (String.length w - 2)))))
+    else if String.length w >= 5 && String.sub w 0 2 = "gs" then begin
+      match String.split_on_char '.' (String.sub w 2 (String.length w - 2)) with
+      | [v; x] -> one (IGSet (n_of_int (int_of_string v), n_of_int (int_of_string x)))
+      | _ -> failwith ("bad instruction " ^ w)
+    end
     else if String.length w >= 3 && String.sub w 0 2 = "st" then one (IStore (n_of_int (int_of_string (String.sub w 2 (String.length w - 2)))))
     else if String.length w >= 3 && String.sub w 0 2 = "xp" then one (IXPause (n_of_int (int_of_string (String.sub w 2 (String.length w - 2)))))
     else if String.length w >= 3 && String.sub w 0 2 = "xf" then one (IXWaitFrame (n_of_int (int_of_string (String.sub w 2 (String.length w - 2)))))
@@ -37,6 +44,7 @@ let parse_op (l : string) : (string * op) option =
   | ["R"] -> Some ("R", OReset)
   | ["C"; k] -> Some ("C", ORecompile (n_of_int (int_of_string k)))
   | ["D"] -> Some ("D", ODestroy)
+  | ["M"; k] -> Some ("M", OStartMissing (n_of_int (int_of_string k)))
   | _ -> None
 let obs_str (name : string) (o : obs) : string =
   let e = int_of_nat o.err in
